@@ -49,12 +49,53 @@ type cwCfg struct {
 	Replicas uint32 `json:"replicas"` // copies per shard - 1
 	Thorough bool   `json:"thorough"`
 	Row      bool   `json:"row,omitempty"` // --measure-vectorized-enabled=false on every node: the row (proto) distributed plan
+	// TZ != 0: every process of the configuration (liaison, data nodes; the standalone reference too) runs in the
+	// fixed time zone UTC+TZ seconds (time.Local), and the base instant of the data set is moved to 800 ms before a
+	// local midnight that is NOT a UTC midnight: batch 1 of every engine then has rows on both sides of a boundary of the
+	// node-local segment grid inside one UTC day (round 2, class of seeded C17-4).
+	TZ int `json:"tz,omitempty"`
+}
+
+// tzName: "+0800", "-0500", "+0530".
+func tzName(sec int) string {
+	sign := "+"
+	if sec < 0 {
+		sign, sec = "-", -sec
+	}
+	return fmt.Sprintf("%s%02d%02d", sign, sec/3600, sec%3600/60)
+}
+
+// loc is the process time zone of the configuration (nil offset = the zone the check runs in).
+func (c cwCfg) loc() *time.Location {
+	if c.TZ == 0 {
+		return time.Local
+	}
+	return time.FixedZone("UTC"+tzName(c.TZ), c.TZ)
+}
+
+// cutMs: in a time-zone configuration the node-local midnight lies at base+cutMs. The data sets are laid out so that
+// batch 1 of every engine has rows before and after base+cutMs (checked by the driver).
+const cutMs = 800
+
+// baseMs is the base instant (unix ms) of the configuration's data set: e2e.Base() (06:00 UTC), or the latest local
+// midnight of the configuration's zone that is <= e2e.Base(), minus cutMs.
+func (c cwCfg) baseMs() int64 {
+	b := e2e.Base()
+	if c.TZ == 0 {
+		return b.UnixMilli()
+	}
+	l := b.In(c.loc())
+	mid := time.Date(l.Year(), l.Month(), l.Day(), 0, 0, 0, 0, c.loc())
+	return mid.UnixMilli() - cutMs
 }
 
 func (c cwCfg) String() string {
 	row := ""
 	if c.Row {
 		row = "/row"
+	}
+	if c.TZ != 0 {
+		row += "/tz" + tzName(c.TZ)
 	}
 	if c.Nodes == 0 {
 		return fmt.Sprintf("standalone/s%d%s", c.Shards, row)
@@ -144,7 +185,7 @@ func cStreamRows() (batches [2][]*streamv1.ElementValue, facts []rowFact) {
 	codes := []int64{200, 404, 200, 500, -1}
 	for k, svc := range cSvcs {
 		for j := 0; j < 3; j++ {
-			ts := int64(j)*1000 + int64(k)*11 + 3
+			ts := int64(j)*500 + int64(k)*11 + 3 // batch 1: 503..624 and 1003..1124, on both sides of cutMs
 			b := 1
 			if j == 0 {
 				ts -= dayMs
@@ -208,6 +249,8 @@ func cTraceRows() (batches [2][]*tracev1.WriteRequest, facts []rowFact) {
 			if tr < 5 {
 				ts -= dayMs
 				b = 0
+			} else {
+				ts -= 600 // batch 1: 255..1463; traces 5..7 end before cutMs, traces 8..11 start after it
 			}
 			w := &tracev1.WriteRequest{
 				Tags: []*modelv1.TagValue{
@@ -341,7 +384,8 @@ func cRequests(thorough bool) []cReq {
 	for _, tr := range []struct {
 		r *modelv1.TimeRange
 		l string
-	}{{e2e.Range(-dayMs-1000, -dayMs+3600*1000), "seg0"}, {e2e.Range(0, 3600*1000), "seg1"}, {e2e.Range(-dayMs+200, 700), "cut"}} {
+	}{{e2e.Range(-dayMs-1000, -dayMs+3600*1000), "seg0"}, {e2e.Range(0, 3600*1000), "seg1"}, {e2e.Range(-dayMs+200, 700), "cut"},
+		{e2e.Range(cutMs+50, 3600*1000), "seg1-after-cut"}} {
 		for _, o := range cOrders("lvl")[:3] {
 			q := mreq(mcrits[0], o, cWin{1000, 0})
 			q.TimeRange = tr.r
@@ -500,6 +544,15 @@ type cReport struct {
 const deliveryHorizon = 4 * time.Minute
 
 func clusterWorker(c cwCfg) {
+	if c.TZ != 0 {
+		// the whole process (in-process liaison + data nodes, or the standalone server) lives in this zone: set before
+		// any other goroutine exists. The base instant came with the environment (runClusterWorkers).
+		time.Local = c.loc()
+		mid := time.UnixMilli(e2e.Base().UnixMilli() + cutMs).Local()
+		if _, off := time.Unix(0, 0).Zone(); off != c.TZ || mid.Hour() != 0 || mid.Minute() != 0 || mid.Second() != 0 || mid.Nanosecond() != 0 {
+			e2e.Fatal("time-zone configuration %s not in effect: offset %d, base+cut = %s", c, off, mid)
+		}
+	}
 	t0 := time.Now()
 	var s *e2e.Server
 	var cl *e2e.Cluster
@@ -886,6 +939,11 @@ func cCompare(q cReq, ref, got cResult, universe map[string]struct{}) (kind stri
 // ---------------------------------------------------------------------------------------------------------------
 // driver
 
+// cZones: process time zones (seconds east of UTC) of the time-zone configurations: UTC+8 (Asia/Shanghai), UTC-5
+// (America/New_York, winter), and for the thorough tier a zone with a half-hour offset (Asia/Kolkata), the extremes
+// UTC+14 / UTC-12 and UTC-3:30 (America/St_Johns).
+var cZones = []int{8 * 3600, -5 * 3600, 5*3600 + 1800, 14 * 3600, -12 * 3600, -(3*3600 + 1800)}
+
 func clusterConfigs(thorough bool) []cwCfg {
 	var out []cwCfg
 	if !thorough {
@@ -895,6 +953,8 @@ func clusterConfigs(thorough bool) []cwCfg {
 		}
 		// the row (non-vectorized) distributed plan on the replicated configurations
 		out = append(out, cwCfg{Nodes: 2, Shards: 3, Replicas: 1, Row: true}, cwCfg{Nodes: 3, Shards: 3, Replicas: 1, Row: true})
+		// process time zone east and west of UTC (round 2): one replicated and one unreplicated configuration
+		out = append(out, cwCfg{Nodes: 2, Shards: 3, Replicas: 1, TZ: cZones[0]}, cwCfg{Nodes: 3, Shards: 2, Replicas: 0, TZ: cZones[1]})
 		return out
 	}
 	for n := 1; n <= 3; n++ {
@@ -910,6 +970,11 @@ func clusterConfigs(thorough bool) []cwCfg {
 			}
 		}
 	}
+	for i, tz := range cZones {
+		c := [][3]int{{2, 3, 1}, {3, 2, 0}, {3, 3, 1}}[i%3]
+		out = append(out, cwCfg{Nodes: c[0], Shards: uint32(c[1]), Replicas: uint32(c[2]), Thorough: true, TZ: tz})
+	}
+	out = append(out, cwCfg{Nodes: 2, Shards: 3, Replicas: 1, Thorough: true, Row: true, TZ: cZones[0]})
 	return out
 }
 
@@ -927,7 +992,8 @@ func runClusterWorkers(dir string, cfgs []cwCfg, par int) map[string]*cReport {
 			defer wg.Done()
 			defer func() { <-sem }()
 			b, _ := json.Marshal(c)
-			outp, err := e2e.Spawn("C17_CLUSTER_WORKER=" + string(b))
+			// the worker's base instant: last duplicate of an environment key wins (os/exec)
+			outp, err := e2e.Spawn("C17_CLUSTER_WORKER="+string(b), fmt.Sprintf("VERIF_E2E_BASE_MS=%d", c.baseMs()))
 			raw, rerr := os.ReadFile(c.Out)
 			mu.Lock()
 			defer mu.Unlock()
@@ -966,7 +1032,23 @@ type cExpect struct {
 	counts map[string]int    // "key|seg" -> rows
 }
 
-func segName(tsNano int64) string { return "seg-" + time.Unix(0, tsNano).Local().Format("20060102") }
+// segName: directory name of the 1-day segment of an instant on a node whose process zone is judgeLoc (the zone of the
+// configuration being judged; the driver itself stays in its own zone).
+var judgeLoc = time.Local
+
+func segName(tsNano int64) string {
+	return "seg-" + time.Unix(0, tsNano).In(judgeLoc).Format("20060102")
+}
+
+// factsAt moves the row facts (computed from the driver's base instant) to the base instant of a configuration.
+func factsAt(facts []rowFact, c cwCfg) []rowFact {
+	d := (c.baseMs() - e2e.Base().UnixMilli()) * int64(time.Millisecond)
+	out := make([]rowFact, len(facts))
+	for i, f := range facts {
+		out[i] = rowFact{Key: f.Key, TS: f.TS + d}
+	}
+	return out
+}
 
 func expectSeries(subject string, facts []rowFact, shards uint32) cExpect {
 	e := cExpect{shard: map[string]uint32{}, name: map[string]string{}, counts: map[string]int{}}
@@ -1009,6 +1091,7 @@ type cStats struct {
 	outcomes, vcases                         map[string]int
 	notExhaustive, timings                   []string
 	evals, nontriv, ties, placed, judged, nq int
+	tzJudged                                 int
 }
 
 func clusterPhase(r *ev.Run, thorough bool, dir string) cStats {
@@ -1042,6 +1125,7 @@ func clusterPhase(r *ev.Run, thorough bool, dir string) cStats {
 	r.Set("nontrivial_cluster", st.nontriv)
 	r.Set("cluster_configurations_judged", st.judged)
 	r.Set("cluster_configurations_planned", len(cfgs))
+	r.Set("cluster_time_zone_configurations_judged", st.tzJudged)
 	r.Set("cluster_requests_per_configuration", st.nq)
 	r.Set("cluster_ties_tolerated", st.ties)
 	r.Set("cluster_blocks_checked_for_placement", st.placed)
@@ -1064,13 +1148,15 @@ func clusterPhase(r *ev.Run, thorough bool, dir string) cStats {
 func clusterJudge(cfgs []cwCfg, thorough bool, dir string) (cStats, []cVio) {
 	shardSet := map[cwCfg]bool{}
 	for _, c := range cfgs {
-		shardSet[cwCfg{Shards: c.Shards, Row: c.Row}] = true
+		shardSet[cwCfg{Shards: c.Shards, Row: c.Row, TZ: c.TZ}] = true
 	}
 	var all []cwCfg
-	for _, row := range []bool{false, true} {
-		for s := uint32(1); s <= 3; s++ {
-			if shardSet[cwCfg{Shards: s, Row: row}] {
-				all = append(all, cwCfg{Shards: s, Thorough: thorough, Row: row})
+	for _, tz := range append([]int{0}, cZones...) {
+		for _, row := range []bool{false, true} {
+			for s := uint32(1); s <= 3; s++ {
+				if shardSet[cwCfg{Shards: s, Row: row, TZ: tz}] {
+					all = append(all, cwCfg{Shards: s, Thorough: thorough, Row: row, TZ: tz})
+				}
 			}
 		}
 	}
@@ -1078,7 +1164,7 @@ func clusterJudge(cfgs []cwCfg, thorough bool, dir string) (cStats, []cVio) {
 	for i := range all {
 		all[i].Thorough = thorough
 	}
-	par := 6
+	par := 7 // 14 workers in quick (8 configurations + 6 references): two waves, as the 10 workers at 6 before round 2
 	_, mf := cMeasureRows()
 	_, sf := cStreamRows()
 	_, tf := cTraceRows()
@@ -1121,12 +1207,12 @@ func clusterJudge(cfgs []cwCfg, thorough bool, dir string) (cStats, []cVio) {
 			vios = append(vios, cVio{key, art})
 		}
 	}
-	started := 0
+	started, tzJudged := 0, 0
 	var timings, notEx []string
 	for _, c := range cfgs {
 		c.Thorough = thorough
 		rep := reps[c.String()]
-		ref := reps[cwCfg{Shards: c.Shards, Row: c.Row}.String()]
+		ref := reps[cwCfg{Shards: c.Shards, Row: c.Row, TZ: c.TZ}.String()]
 		if c.Replicas > 0 && c.Nodes < int(c.Replicas)+1 {
 			// fewer nodes than copies: whatever happens is recorded, nothing is demanded
 			outcomes[fmt.Sprintf("cluster/%s/not-judged(fewer-nodes-than-copies)", c)]++
@@ -1201,10 +1287,30 @@ func clusterJudge(cfgs []cwCfg, thorough bool, dir string) (cStats, []cVio) {
 			outcomes["cluster/"+eng+"/differ:"+kind]++
 			outcomes[fmt.Sprintf("by-config/%s/%s/differ", c, eng)]++
 			report(key, map[string]any{"phase": "cluster", "cfg": c, "request_index": i, "shape": q.Shape,
-				"request": protoJSON(q.Msg), "standalone": ref.Results[i], "cluster": rep.Results[i]})
+				"request": protoJSON(q.Msg), "request_times_relative_to_base_ms": e2e.Base().UnixMilli(), "cfg_base_ms": c.baseMs(),
+				"standalone": ref.Results[i], "cluster": rep.Results[i]})
 		}
 		// placement
-		exp := map[string]cExpect{"measure": expectSeries(nM, mf, c.Shards), "stream": expectSeries(nS, sf, c.Shards), "trace": expectTraces(tf, c.Shards)}
+		judgeLoc = c.loc()
+		cmf := factsAt(mf, c)
+		exp := map[string]cExpect{"measure": expectSeries(nM, cmf, c.Shards), "stream": expectSeries(nS, factsAt(sf, c), c.Shards), "trace": expectTraces(factsAt(tf, c), c.Shards)}
+		if c.TZ != 0 {
+			tzJudged++
+			// data-set obligation of a time-zone configuration: the rows of batch 1 (the last 24 h of the data set) of
+			// every engine lie in two node-local segments although they lie in one UTC day
+			for eng, ff := range map[string][]rowFact{"measure": cmf, "stream": factsAt(sf, c), "trace": factsAt(tf, c)} {
+				segs, utc := map[string]bool{}, map[string]bool{}
+				for _, f := range ff {
+					if f.TS >= c.baseMs()*int64(time.Millisecond) {
+						segs[segName(f.TS)] = true
+						utc[time.Unix(0, f.TS).UTC().Format("20060102")] = true
+					}
+				}
+				if len(segs) != 2 || len(utc) != 1 {
+					harnessErr("data set: batch 1 of %s in %s lies in %d local segments and %d UTC days (need 2 and 1)", eng, c, len(segs), len(utc))
+				}
+			}
+		}
 		got := map[string]uint64{} // engine|key|seg|node -> rows
 		for _, b := range rep.Blocks {
 			placed++
@@ -1226,7 +1332,7 @@ func clusterJudge(cfgs []cwCfg, thorough bool, dir string) (cStats, []cVio) {
 		copies := int(c.Replicas) + 1
 		for eng, e := range exp {
 			for ks, want := range e.counts {
-				if eng == "measure" && e.name[strings.Split(ks, "|")[0]] == "s1" && strings.HasSuffix(ks, segName(mf[0].TS)) {
+				if eng == "measure" && e.name[strings.Split(ks, "|")[0]] == "s1" && strings.HasSuffix(ks, segName(cmf[0].TS)) {
 					want++ // the point written twice (two versions) is stored twice
 				}
 				holders := 0
@@ -1256,7 +1362,7 @@ func clusterJudge(cfgs []cwCfg, thorough bool, dir string) (cStats, []cVio) {
 	}
 	sort.Slice(vios, func(i, j int) bool { return vios[i].key < vios[j].key })
 	return cStats{outcomes: outcomes, vcases: vcases, notExhaustive: notEx, timings: timings, evals: evals, nontriv: nontriv, ties: ties,
-		placed: placed, judged: started, nq: len(reqs)}, vios
+		placed: placed, judged: started, nq: len(reqs), tzJudged: tzJudged}, vios
 }
 
 func cmpWord(a, b int) string {
